@@ -82,10 +82,12 @@ Qed.
 Lemma authorize_ok e az c id :
   authorize e az c = Ok id ->
   exists u, csr_uris c = [u] /\ csr_emails c = 0 /\ parse_cert_uri u = Ok id /\
-            validate_supported id = true /\ granted az id /\ id_dc id = e_dc e.
+            validate_supported id = true /\ granted az id /\ id_dc id = e_dc e /\
+            is_duser (u_deco u) = false.
 Proof.
   unfold authorize. destruct (csr_uris c) as [|u [|u2 t]]; try discriminate.
   destruct (csr_emails c =? 0) eqn:Em; cbn [negb]; try discriminate.
+  destruct (is_duser (u_deco u)) eqn:Dd; try discriminate.
   destruct (parse_cert_uri u) as [id0|pe] eqn:P; try discriminate.
   destruct (validate_supported id0) eqn:V; cbn [negb]; try discriminate.
   destruct (authorize_id e az id0) as [[]|x] eqn:A; try discriminate.
@@ -126,7 +128,7 @@ Theorem issue_sound e az c s crt s' :
     c_serial crt = next_serial s /\ s' = incr_serial s.
 Proof.
   unfold sign_request. destruct (authorize e az c) as [id|x] eqn:A; try discriminate.
-  destruct (authorize_ok _ _ _ _ A) as (u & Hu & Hem & Hp & Hv & Hg & Hd).
+  destruct (authorize_ok _ _ _ _ A) as (u & Hu & Hem & Hp & Hv & Hg & Hd & _).
   rewrite Hu. destruct (sign_uris e [u] id) as [uris|x] eqn:S; try discriminate.
   unfold provider_sign. intros H; injection H as <- <-.
   destruct (sign_uris_ok _ _ _ _ S Hp) as [Hn Ha].
@@ -617,36 +619,61 @@ Qed.
 (* ------------------------------------------------------------------ the auto-config entry point *)
 
 (* What a certificate issued through AutoConfig.InitialConfiguration implies.  There is no ACL
-   question (the JWT authorized [node]) and - unlike [issue_sound] - NO datacenter clause and no
-   supported-scope test: the code has none on this path. *)
+   question (the JWT authorized [node]) and no supported-scope test on this path; since bf079b3
+   the datacenter of the identity is the server's. *)
 Theorem autoconfig_sound e node c s crt s' :
   autoconfig_sign e node c s = Ok (crt, s') ->
-  exists u host ap dc,
-    csr_uris c = [u] /\ csr_emails c = 0 /\ parse_cert_uri u = Ok (IdAgent host ap dc node) /\
-    c_uris crt = [agent_cert_uri e u (IdAgent host ap dc node)] /\
+  exists u host ap,
+    csr_uris c = [u] /\ csr_emails c = 0 /\ is_duser (u_deco u) = false /\
+    parse_cert_uri u = Ok (IdAgent host ap (e_dc e) node) /\
+    c_uris crt = [agent_cert_uri e u (IdAgent host ap (e_dc e) node)] /\
     (exists u', c_uris crt = [u'] /\ lower (u_host u') = trust_domain e /\
-                (u' = u \/ u' = uri_of (IdAgent (trust_domain e) ap dc node))) /\
+                (u' = u \/ u' = uri_of (IdAgent (trust_domain e) ap (e_dc e) node))) /\
     c_is_ca crt = false /\ c_serial crt = next_serial s /\ s' = incr_serial s.
 Proof.
   unfold autoconfig_sign. destruct (csr_uris c) as [|u [|u2 t]] eqn:Hu; try discriminate.
   destruct (csr_emails c =? 0) eqn:Em; cbn [negb]; try discriminate.
+  destruct (is_duser (u_deco u)) eqn:Dd; try discriminate.
   destruct (parse_cert_uri u) as [id|pe] eqn:Hp; try discriminate.
   destruct id as [| host ap dc agent | | |]; try discriminate.
   destruct (agent =? node)%string eqn:En; cbn [negb]; try discriminate.
   apply streqb_eq in En. subst agent.
-  destruct (sign_uris e [u] (IdAgent host ap dc node)) as [uris|x] eqn:S; try discriminate.
+  destruct (dc =? e_dc e)%string eqn:Ed; cbn [negb]; try discriminate.
+  apply streqb_eq in Ed. subst dc.
+  destruct (sign_uris e [u] (IdAgent host ap (e_dc e) node)) as [uris|x] eqn:S; try discriminate.
   unfold provider_sign. intros H; injection H as <- <-.
   destruct (sign_uris_ok _ _ _ _ S Hp) as [_ Ha]. specialize (Ha eq_refl).
-  exists u, host, ap, dc. cbn [c_uris c_is_ca c_serial].
-  split; [reflexivity|]. split; [apply N.eqb_eq; exact Em|]. split; [exact Hp|]. split; [exact Ha|].
+  exists u, host, ap. cbn [c_uris c_is_ca c_serial].
+  split; [reflexivity|]. split; [apply N.eqb_eq; exact Em|]. split; [exact Dd|].
+  split; [exact Hp|]. split; [exact Ha|].
   split; [|repeat split].
   rewrite Ha. cbn [agent_cert_uri coerce].
   pose proof (parse_agent_host _ _ _ _ _ Hp) as Hh.
   destruct (host =? trust_domain e)%string eqn:Ht.
   - exists u. split; [reflexivity|]. apply streqb_eq in Ht. split; [|left; reflexivity].
     rewrite <- Hh, Ht. unfold trust_domain. apply lower_idem.
-  - exists (uri_of (IdAgent (trust_domain e) ap dc node)). split; [reflexivity|].
+  - exists (uri_of (IdAgent (trust_domain e) ap (e_dc e) node)). split; [reflexivity|].
     split; [cbn [uri_of fresh_url u_host]; unfold trust_domain; apply lower_idem | right; reflexivity].
+Qed.
+
+(* No certificate is issued, through either entry point, for a URI with userinfo, a query or a
+   fragment (3ebfd83); the URI that goes into the certificate has none either. *)
+Theorem no_decorated_uri e az c s crt s' :
+  sign_request e az c s = Ok (crt, s') ->
+  exists u u', csr_uris c = [u] /\ is_duser (u_deco u) = false /\
+               c_uris crt = [u'] /\ is_duser (u_deco u') = false.
+Proof.
+  intros H. pose proof H as H0. unfold sign_request in H0.
+  destruct (authorize e az c) as [id|x] eqn:A; try discriminate.
+  destruct (authorize_ok _ _ _ _ A) as (u & Hu & _ & Hp & _ & _ & _ & Hd).
+  destruct (issue_sound _ _ _ _ _ _ H) as (u2 & id2 & Hu2 & _ & Hp2 & _ & _ & _ & Hn & Ha & _).
+  rewrite Hu in Hu2. injection Hu2 as <-. rewrite Hp in Hp2. injection Hp2 as <-.
+  exists u. destruct (is_agent id) eqn:Ag.
+  - specialize (Ha eq_refl). destruct id; try discriminate. cbn [agent_cert_uri coerce] in Ha.
+    destruct (host =? trust_domain e)%string.
+    + exists u. repeat split; assumption.
+    + eexists. split; [exact Hu|]. split; [exact Hd|]. split; [exact Ha | reflexivity].
+  - destruct (Hn eq_refl) as [_ Hc]. exists u. repeat split; assumption.
 Qed.
 
 (* ------------------------------------------------------------------ the environment comes from the store *)
